@@ -121,17 +121,28 @@ def main(tier, seed):
                               {"K": row["K"], "p": row["p"], "M": row["M"], "expected": exp, "returned": list(map(float, got))})
                 continue
             if nrows % 7 == 0:
-                # fraction helper: must be the point calculation at y * P
-                P = float(sum(p))
-                y = p / P
-                direct = attempt("iast_point", cfg, lambda: ia.iast_point(isos, numpy.asarray(y) * P, warningoff=True), True)
-                viaf = attempt("iast_point_fraction", cfg, lambda: ia.iast_point_fraction(isos, y, P, warningoff=True), True)
-                if direct is not None and viaf is not None:
-                    run.count(("fraction", key))
-                    add({"k": "same", "a": enc(direct), "b": enc(viaf)}, {"site": "iast_point_fraction", "config": cfg})
+                # fraction helper: must be the point calculation at y * P - for fractions that add up to one and for a
+                # feed with an inert carrier (fractions adding up to less than one); same closed form either way
+                for tag, P in (("fractions sum to 1", float(sum(p))), ("fractions sum to 1/2 (inert carrier)", 2.0 * float(sum(p)))):
+                    y = p / P
+                    direct = attempt("iast_point", cfg, lambda: ia.iast_point(isos, numpy.asarray(y) * P, warningoff=True), True)
+                    if direct is None:
+                        continue
+                    detail = {"gas_fractions": y.tolist(), "total_pressure": P}
+                    try:
+                        viaf = ia.iast_point_fraction(isos, y, P, warningoff=True)
+                    except Exception as e:
+                        run.violation({"site": "iast_point_fraction", "config": cfg + ", " + tag,
+                                       "observed": "helper raises although the point calculation returns: " + exc_class(e)}, detail)
+                        continue
+                    run.count(("fraction", key, tag))
+                    add({"k": "same", "a": enc(direct), "b": enc(viaf)}, {"site": "iast_point_fraction", "config": cfg + ", " + tag})
                     if not numpy.array_equal(numpy.asarray(direct), numpy.asarray(viaf)):
-                        run.violation({"site": "iast_point_fraction", "config": cfg, "observed": "helper_differs_from_point_calculation"},
-                                      {"direct": list(map(float, direct)), "helper": list(map(float, viaf))})
+                        run.violation({"site": "iast_point_fraction", "config": cfg + ", " + tag, "observed": "helper_differs_from_point_calculation"},
+                                      {"direct": list(map(float, direct)), "helper": list(map(float, viaf)), **detail})
+                    if not all(close(g, e) for g, e in zip(viaf, exp)):
+                        run.violation({"site": "iast_point_fraction", "config": cfg + ", " + tag, "observed": "loadings differ from the closed form"},
+                                      {"expected": exp, "returned": list(map(float, viaf)), **detail})
             if nrows % 11 == 0 and n >= 2:
                 # permuted order on the real code
                 sigma = list(range(n))
@@ -168,7 +179,7 @@ def main(tier, seed):
         "Quadratic": [{"n_m": 2.0, "Ka": 0.5, "Kb": 0.25}, {"n_m": 1.0, "Ka": 2.0, "Kb": 1.0}],
         "TemkinApprox": [{"n_m": 5.0, "K": 0.5, "tht": 0.25}, {"n_m": 2.0, "K": 2.0, "tht": 0.5}],
         "Toth": [{"n_m": 5.0, "K": 0.5, "t": 2.0}, {"n_m": 2.0, "K": 2.0, "t": 0.5}],
-        "JensenSeaton": [{"K": 5.0, "a": 5.0, "b": 0.25, "c": 1.0}, {"K": 2.0, "a": 1.0, "b": 0.05, "c": 2.0}],
+        "JensenSeaton": [{"K": 5.0, "a": 5.0, "b": 0.25, "c": 0.7}, {"K": 2.0, "a": 1.0, "b": 0.05, "c": 2.0}],
     }
     import pygaps.modelling as pgm
     for name in PAR:
@@ -188,7 +199,24 @@ def main(tier, seed):
         p0 = numpy.asarray(p, dtype=float) / x
         pi = [float(i.spreading_pressure_at(q, branch=branch)) for i, q in zip(isos, p0)]
         n0 = [float(i.loading_at(q, branch=branch)) for i, q in zip(isos, p0)]
-        return p0, pi, n0
+        return p0, pi, n0, quadrature(isos, p0, pi)
+
+    from scipy import integrate
+
+    def quadrature(isos, p0, pi):
+        """independent quadrature of n/p of the input isotherm's own loading_at (model isotherms)"""
+        piq, hasq = [], []
+        for iso, q, fallback in zip(isos, p0, pi):
+            if isinstance(iso, pygaps.ModelIsotherm) and numpy.isfinite(q) and q > 0:
+                val = integrate.quad(lambda t: float(iso.loading_at(t)) / t, 0.0, float(q), limit=200, epsabs=0.0, epsrel=1e-10)[0]
+                piq.append(float(val))
+                hasq.append(bool(numpy.isfinite(val)))
+                if not hasq[-1]:
+                    piq[-1] = fallback
+            else:
+                piq.append(fallback)
+                hasq.append(False)
+        return {"piq": enc(piq), "hasq": hasq}
 
     def guesses(n):
         out = [None, [1.0 / n] * n]
@@ -217,12 +245,12 @@ def main(tier, seed):
                           {"components": names, "p": p.tolist(), "returned": load.tolist()})
             continue
         try:
-            p0, pi, n0 = observe(isos, p, load)
+            p0, pi, n0, qd = observe(isos, p, load)
         except Exception as e:
             run.violation({"site": "iast_point", "config": cfg, "observed": "input isotherms cannot be evaluated at p_i/x_i of the returned result: " + exc_class(e)},
                           {"components": names, "p": p.tolist(), "returned": load.tolist(), "message": str(e)[:200]})
             continue
-        add({"k": "point", "p": enc(p), "load": enc(load), "p0": enc(p0), "pi": enc(pi), "n0": enc(n0)},
+        add({"k": "point", "p": enc(p), "load": enc(load), "p0": enc(p0), "pi": enc(pi), "n0": enc(n0), **qd},
             {"site": "iast_point", "config": cfg, "components": names, "p": p.tolist(), "guess": g})
         # permutation
         if trial % 2 == 0:
@@ -283,12 +311,12 @@ def main(tier, seed):
             continue
         p = y * P
         try:
-            p0, pi, n0 = observe(isos, p, load)
+            p0, pi, n0, qd = observe(isos, p, load)
         except Exception as e:
             run.violation({"site": "reverse_iast", "config": cfg, "observed": "input isotherms cannot be evaluated at p_i/x_i of the returned result: " + exc_class(e)},
                           {"components": names, "x": x.tolist(), "P": P, "message": str(e)[:200]})
             continue
-        add({"k": "revobs", "x": enc(x), "P": dec_enc(P), "y": enc(y), "p": enc(p), "load": enc(load), "p0": enc(p0), "pi": enc(pi), "n0": enc(n0)},
+        add({"k": "revobs", "x": enc(x), "P": dec_enc(P), "y": enc(y), "p": enc(p), "load": enc(load), "p0": enc(p0), "pi": enc(pi), "n0": enc(n0), **qd},
             {"site": "reverse_iast", "config": cfg, "components": names, "x": x.tolist(), "P": P})
         fwd = attempt("iast_point_fraction", cfg, lambda: ia.iast_point_fraction(isos, y, P, warningoff=True), False)
         if fwd is not None:
@@ -420,13 +448,13 @@ def main(tier, seed):
                                   {"components": names, "p": p.tolist(), "returned": load.tolist()})
                     continue
                 try:
-                    p0, pi, n0 = observe(isos, p, load, branch=beff)
+                    p0, pi, n0, qd = observe(isos, p, load, branch=beff)
                 except Exception as e:
                     run.violation({"site": "iast_point", "config": cfg + ", " + vt,
                                    "observed": "input isotherms cannot be evaluated on the requested branch at p_i/x_i of the returned result: " + exc_class(e)},
                                   {"components": names, "p": p.tolist(), "returned": load.tolist(), "message": str(e)[:200]})
                     continue
-                add({"k": "point", "p": enc(p), "load": enc(load), "p0": enc(p0), "pi": enc(pi), "n0": enc(n0)},
+                add({"k": "point", "p": enc(p), "load": enc(load), "p0": enc(p0), "pi": enc(pi), "n0": enc(n0), **qd},
                     {"site": "iast_point", "config": cfg + ", " + vt, "components": names, "p": p.tolist()})
                 # the fraction helper with the same arguments = the point calculation on that branch
                 detail = {"components": names, "gas_fractions": y.tolist(), "total_pressure": P, "arguments": dict(bkw)}
@@ -448,8 +476,8 @@ def main(tier, seed):
                         run.count(("hyst-reverse", mi, vt, tuple(p.tolist())))
                         if numpy.all(numpy.isfinite(lb)) and lb.sum() > 0 and numpy.all(numpy.isfinite(yb)):
                             try:
-                                q0, qi, m0 = observe(isos, yb * P, lb, branch=beff)
-                                add({"k": "revobs", "x": enc(x), "P": dec_enc(P), "y": enc(yb), "p": enc(yb * P), "load": enc(lb), "p0": enc(q0), "pi": enc(qi), "n0": enc(m0)},
+                                q0, qi, m0, qd = observe(isos, yb * P, lb, branch=beff)
+                                add({"k": "revobs", "x": enc(x), "P": dec_enc(P), "y": enc(yb), "p": enc(yb * P), "load": enc(lb), "p0": enc(q0), "pi": enc(qi), "n0": enc(m0), **qd},
                                     {"site": "reverse_iast", "config": cfg + ", " + vt, "components": names, "x": x.tolist(), "P": P})
                             except Exception as e:
                                 run.violation({"site": "reverse_iast", "config": cfg + ", " + vt,
@@ -473,7 +501,10 @@ def main(tier, seed):
     for rec, meta, a in zip(judge_recs, judge_meta, answers):
         if not a["ok"]:
             cls = meta["config"]
-            run.violation({"site": meta["site"], "config": cls, "observed": a["clause"]},
+            extra = {}
+            if a["clause"] == "spreading_pressure_is_not_the_integral_of_loading":
+                extra = {"component": "+".join(sorted({meta["components"][i - 1].split("#")[0] for i in a["bad"]}))}
+            run.violation({"site": meta["site"], "config": cls, "observed": a["clause"], **extra},
                           {k: v for k, v in meta.items() if k not in ("site", "config")} | {"record": {k: rec[k] for k in rec if k != "k"}})
     run.add("traces_validated_against_impl", len(judge_recs))
     kinds = {}
